@@ -12,7 +12,7 @@ HARNESSES = {
         "module": "grpcgcp", "pkg": ".", "test": "TestVerifRace.*",
         "files": ["harness/grpcgcp/zz_verif_race_test.go", "harness/grpcgcp/zz_verif_gme_test.go", "harness/grpcgcp/zz_verif_pool_test.go"],
         "extra_files": {"multiendpoint/zz_verif_dump.go": "harness/multiendpoint/zz_verif_dump.go"},
-        "buildflags": ["-race"],
+        "buildflags": ["-race"], "rewrite": "nohook",
         "corpus_glob": "*.ops", "corpus_dirs": [],
         "episode_start": r"^race ",
         "tiers": {"quick": {"episodes": 1, "ms": 1200}, "thorough": {"episodes": 1, "ms": 20000}},
